@@ -37,11 +37,22 @@ pub fn validate(server_name: &str) -> Result<(), Error> {
             // hostname is followed by something other than ":port"
             server_name.as_bytes()[end_of_host] != b':'
             // the remaining characters after ':' are not a valid port
-            || server_name[end_of_host + 1..].parse::<u16>().is_err()
+            || !is_valid_port(&server_name[end_of_host + 1..])
         )
     {
         Err(Error::InvalidServerName)
     } else {
         Ok(())
     }
+}
+
+/// Whether the given string is a port according to the [server name grammar], i.e. 1 to 5 ASCII
+/// digits, that fits in a `u16`.
+///
+/// [server name grammar]: https://spec.matrix.org/latest/appendices/#server-name
+fn is_valid_port(port: &str) -> bool {
+    // `u16::from_str` alone also accepts a leading `+` and any number of leading zeros.
+    (1..=5).contains(&port.len())
+        && port.bytes().all(|byte| byte.is_ascii_digit())
+        && port.parse::<u16>().is_ok()
 }
